@@ -177,7 +177,7 @@ def playback(ws, package, name, timeout_s):
     return res
 
 
-def evaluate(group_names, prop, tier, res, timeout_s=None):
+def evaluate(group_names, prop, tier, res, timeout_s=None, only_quick=None):
     groups_all = load_groups()
     groups = [groups_all[g] for g in group_names]
     timeout_s = timeout_s or (1800 if tier == 'thorough' else 600)
@@ -189,6 +189,8 @@ def evaluate(group_names, prop, tier, res, timeout_s=None):
     for pkg in sorted(set(g.package for g in groups)):
         hs = [h for g in groups if g.package == pkg for h in g.harnesses
               if prop in h.props and (tier == 'thorough' or h.tier == 'quick')]
+        if only_quick is not None and tier != 'thorough':
+            hs = [h for h in hs if any(h.name == o or (o.endswith('*') and h.name.startswith(o[:-1])) for o in only_quick)]
         if not hs:
             continue
         results, cerr, wall, cmd = run_harnesses(ws, pkg, [h.name for h in hs], timeout_s)
